@@ -22,8 +22,12 @@ MANIFEST = {
     "text": "PARTIAL. Explicit-heap Coq model of the library's copy-then-mutate mechanisms (every container-handling "
             "Property.clean incl. ObservableProperty/ExtensionsProperty, _STIXBase.__init__ with dict/list kwargs, "
             "dict_to_stix2, parse_observable, new_version/revoke, remove_custom_stix, expand/compress and "
-            "add/clear/remove/set granular markings, object markings, the stix2.markings API dispatch, Bundle, MarkingDefinition.__init__, ObjectFactory.create, MemoryStore _add, __deepcopy__, __setattr__) "
-            "with class tables, property defaults and the list of classes overriding __init__ "
+            "add/clear/remove/set granular markings (incl. the marking_ref=/lang= options), object markings, the "
+            "stix2.markings API dispatch, utils.deduplicate, copy.copy, Bundle (objects "
+            "kept, observables re-parsed), the custom-type constructor of stix2/custom.py (extension_name=: the "
+            "type's own extension written into the stored extensions dict, new _inner when absent), MarkingDefinition.__init__, ObjectFactory.create, MemoryStore _add, __deepcopy__, __setattr__) "
+            "with class tables (incl. custom classes the worker registers through the public decorators), property "
+            "defaults and the list of classes overriding __init__ "
             "regenerated from the live classes each run. Theorems for ALL heaps/arguments/class tables: no pre-existing "
             "heap node is written (frame) by any modelled operation (store: only its own table), hence all deep values "
             "are kept; deepcopy yields an equal value in all-new containers; setattr on any property name is refused, "
@@ -39,7 +43,7 @@ MANIFEST = {
     "note": "Modelled and proved: the skeletons listed in text (allocation/copy/sharing/write structure only; validation "
             "is not modelled, so the model predicts success where the library may reject; which ids get_markings returns and "
             "what is_marked answers is not modelled either, only their heap effect). Only snapshot-tested: validate/iterpath, "
-            "serialization, equality, copy.copy, parse of text, deduplicate, filesystem store, Environment, queries, "
+            "serialization, equality, parse of text, filesystem store, Environment, queries, "
             "save/load, object similarity (harness/impl/snapshot.py offers the same oracle to other workers). Trusted: Coq kernel + "
             "vm_compute, hand-written heap model (validated each run by the aliasing correspondence), CPython "
             "semantics of dict/list/copy.deepcopy, the snapshot function of harness/impl/c13_impl.py. No axioms.",
@@ -159,7 +163,7 @@ def check(run):
         "(scenarios: file extensions, observed-data objects, SDOs with list/dict members, granular/object markings, "
         "the stix2.markings API on objects and dicts, bundles and memory stores sharing objects, store get of parsed vs unknown-type dicts, ObjectFactory list "
         "defaults, attribute refusals; plus API/markings/serialization/filesystem/environment sequences that are "
-        "snapshot-tested only; plus 10 fixed witnesses of the missing-copy variants); a case is non-trivial when at "
+        "snapshot-tested only; custom object/observable types with extension_name= sharing one extensions dict; plus 10 fixed witnesses of the missing-copy variants); a case is non-trivial when at "
         "least two library calls in it completed without raising")
     gen_ok = False
     with common.Lock():
